@@ -524,6 +524,12 @@ pub struct ProgGen {
     pub typed: bool,
     /// number of `;` written after a return statement (finding F25: the generator drops them)
     pub last_semicolons: u32,
+    /// token indices at which a statement (or last statement) starts
+    pub stmt_starts: Vec<usize>,
+    /// inside a temporary token buffer (indices would be meaningless)
+    in_temp: bool,
+    /// C04: some marker strings are multi-line quoted strings (`\z`, backslash-newline)
+    pub multiline_strings: bool,
 }
 
 const BINOPS: &[&str] = &[
@@ -549,7 +555,8 @@ const NAMES: &[&str] = &["a", "b", "foo", "bar_1", "_", "_G", "self", "x9", "T",
 
 impl ProgGen {
     pub fn new(rng: Rng, budget: i32) -> Self {
-        ProgGen { rng, toks: Vec::new(), budget, markers: false, next: 0, typed: false, last_semicolons: 0 }
+        ProgGen { rng, toks: Vec::new(), budget, markers: false, next: 0, typed: false, last_semicolons: 0,
+            stmt_starts: Vec::new(), in_temp: false, multiline_strings: false }
     }
     fn t(&mut self, s: &str) {
         self.toks.push(s.to_owned());
@@ -591,7 +598,13 @@ impl ProgGen {
         if self.markers {
             let k = self.fresh();
             let q = if self.rng.chance(1, 2) { '\'' } else { '"' };
-            self.t(&format!("{}s{}{}", q, k, q));
+            if self.multiline_strings && self.rng.chance(1, 5) {
+                // a quoted string that physically spans two lines; the marker is its first line
+                let cont = if self.rng.chance(1, 2) { "\\z\n  x" } else { "\\\nx" };
+                self.t(&format!("{}s{}{}{}", q, k, cont, q));
+            } else {
+                self.t(&format!("{}s{}{}", q, k, q));
+            }
         } else {
             let s = *self.rng.pick(STRINGS);
             self.t(s);
@@ -822,9 +835,16 @@ impl ProgGen {
                 if self.markers && self.rng.chance(1, 3) {
                     // interpolated string whose only content are marker expressions (one token)
                     let saved = std::mem::take(&mut self.toks);
+                    let was_temp = std::mem::replace(&mut self.in_temp, true);
                     self.prefix(d.min(1), vararg, 1);
+                    self.in_temp = was_temp;
                     let inner = std::mem::replace(&mut self.toks, saved).join(" ");
-                    self.t(&format!("`{{{}}}`", inner));
+                    if self.multiline_strings && self.rng.chance(1, 4) {
+                        // literal segment with a backslash-newline after the expression
+                        self.t(&format!("`{{{}}}\\\nx`", inner));
+                    } else {
+                        self.t(&format!("`{{{}}}`", inner));
+                    }
                     return;
                 }
                 self.t("if");
@@ -843,6 +863,40 @@ impl ProgGen {
             _ => self.prefix(d, vararg, 1),
         }
     }
+    /// C04 bundling: first marker number of this generator (markers stay unique across files)
+    pub fn set_marker_base(&mut self, base: u32) {
+        self.next = base;
+    }
+    /// C04 bundling: a module body — `n` statements, then `return <expr>`
+    pub fn module_body(&mut self, depth: u32, n: usize) {
+        for _ in 0..n {
+            self.statement(depth, false, false);
+            if self.rng.chance(1, 6) {
+                self.t(";");
+            }
+        }
+        self.stmt_starts.push(self.toks.len());
+        // a module must return exactly one value; a global marker survives every pipeline
+        self.t("return");
+        self.name();
+    }
+    /// C04 bundling: `local v<k> = require("<path>")`
+    pub fn require_statement(&mut self, path: &str) {
+        self.stmt_starts.push(self.toks.len());
+        self.t("local");
+        self.local_name();
+        self.t("=");
+        self.t("require");
+        self.t("(");
+        self.t(&format!("\"{}\"", path));
+        self.t(")");
+    }
+    /// `n` plain statements (no last statement)
+    pub fn statements(&mut self, depth: u32, n: usize) {
+        for _ in 0..n {
+            self.statement(depth, false, false);
+        }
+    }
     pub fn block(&mut self, depth: u32, in_loop: bool, vararg: bool) {
         let n = if depth == 0 { self.rng.below(2) } else { self.rng.below(4) };
         for _ in 0..n {
@@ -854,7 +908,11 @@ impl ProgGen {
                 self.t(";");
             }
         }
-        match self.rng.below(if in_loop { 8 } else { 6 }) {
+        let last = self.rng.below(if in_loop { 8 } else { 6 });
+        if matches!(last, 0 | 1 | 6 | 7) && !self.in_temp {
+            self.stmt_starts.push(self.toks.len());
+        }
+        match last {
             0 | 1 => {
                 self.t("return");
                 self.expr_list(depth.min(2), vararg, 0, 2);
@@ -869,6 +927,9 @@ impl ProgGen {
         }
     }
     fn statement(&mut self, depth: u32, in_loop: bool, vararg: bool) {
+        if !self.in_temp {
+            self.stmt_starts.push(self.toks.len());
+        }
         let d = depth.saturating_sub(1);
         let e = depth.min(2);
         match self.rng.below(if depth == 0 { 4 } else { 14 }) {
@@ -1042,6 +1103,41 @@ pub struct Layout {
     pub breaks: u32,
     /// per mille of positions where an avoidable space-rule hit (F7 region) is left in place
     pub f7: u32,
+    /// `boundaries[i]`: the gap before token `i` (index `len` = end of file) lies between two
+    /// statements (the trivia there belongs to the last token of one statement or the first
+    /// token of the next). Empty = unknown (every gap treated alike).
+    pub boundaries: Vec<bool>,
+    /// may block comments that span several lines be placed in statement-boundary gaps?
+    pub ml_at_boundary: bool,
+    /// per mille of statement-boundary gaps that get a documentation block: an optional trailing
+    /// comment for the statement before, then 1-4 comments on consecutive lines
+    pub doc_blocks: u32,
+}
+
+impl Layout {
+    pub fn plain(newline: &'static str, comments: u32, breaks: u32, f7: u32) -> Layout {
+        Layout { newline, comments, breaks, f7, boundaries: Vec::new(), ml_at_boundary: true, doc_blocks: 0 }
+    }
+}
+
+/// `boundaries` of a generated token stream (see `Layout::boundaries`).
+pub fn statement_boundaries(toks: &[String], stmt_starts: &[usize]) -> Vec<bool> {
+    let mut b = vec![false; toks.len() + 1];
+    for &i in stmt_starts {
+        if i <= toks.len() {
+            b[i] = true;
+        }
+    }
+    for (i, t) in toks.iter().enumerate() {
+        if matches!(t.as_str(), "end" | "until" | "else" | "elseif" | ";") {
+            b[i] = true;
+        }
+        if t == ";" {
+            b[i + 1] = true;
+        }
+    }
+    b[toks.len()] = true;
+    b
 }
 
 fn line_comment(rng: &mut Rng) -> String {
@@ -1052,7 +1148,10 @@ fn line_comment(rng: &mut Rng) -> String {
     (*rng.pick(C)).to_owned()
 }
 
-fn block_comment(rng: &mut Rng, nl: &str) -> String {
+fn block_comment(rng: &mut Rng, nl: &str, allow_multiline: bool) -> String {
+    if !allow_multiline {
+        return (*rng.pick(&["--[[c]]", "--[==[ with ]] inside ]==]", "--[[]]", "--[[ é日本 ]]", "--[=[ one line ]=]"])).to_owned();
+    }
     match rng.below(7) {
         0 => "--[[c]]".to_owned(),
         1 => format!("--[[ multi{}line ]]", nl),
@@ -1065,7 +1164,7 @@ fn block_comment(rng: &mut Rng, nl: &str) -> String {
 }
 
 /// Random trivia: whitespace and comments; `must_separate` forces a non-empty result.
-fn gap(rng: &mut Rng, layout: &Layout, must_separate: bool, prev_ends_minus: bool) -> String {
+fn gap(rng: &mut Rng, layout: &Layout, must_separate: bool, prev_ends_minus: bool, allow_multiline: bool) -> String {
     let nl = if layout.newline == "mixed" {
         if rng.chance(1, 2) { "\n" } else { "\r\n" }
     } else {
@@ -1088,7 +1187,7 @@ fn gap(rng: &mut Rng, layout: &Layout, must_separate: bool, prev_ends_minus: boo
                 s.push_str(&line_comment(rng));
                 s.push_str(nl);
             } else {
-                s.push_str(&block_comment(rng, nl));
+                s.push_str(&block_comment(rng, nl, allow_multiline));
             }
         } else if r < layout.comments + layout.breaks {
             s.push_str(nl);
@@ -1108,21 +1207,63 @@ fn gap(rng: &mut Rng, layout: &Layout, must_separate: bool, prev_ends_minus: boo
     s
 }
 
+/// A documentation block between two statements: optional trailing comment of the statement
+/// before, optional blank lines, 1-4 comments each on its own line, then the next statement on
+/// the following line (sometimes after a blank line).
+fn doc_block(rng: &mut Rng, layout: &Layout, prev_ends_minus: bool, allow_multiline: bool) -> String {
+    let nl = if layout.newline == "mixed" || layout.newline == "\r\n" { "\r\n" } else { "\n" };
+    let mut s = String::new();
+    if rng.chance(1, 2) {
+        s.push(' ');
+        if rng.chance(2, 3) {
+            s.push_str(&line_comment(rng));
+        } else {
+            s.push_str(&block_comment(rng, nl, allow_multiline));
+        }
+    } else if prev_ends_minus {
+        s.push(' ');
+    }
+    s.push_str(nl);
+    for _ in 0..rng.below(3) {
+        s.push_str(nl);
+    }
+    let k = 1 + rng.below(4);
+    for _ in 0..k {
+        if rng.chance(1, 4) {
+            s.push_str(*rng.pick(&["  ", "\t"]));
+        }
+        if rng.chance(3, 4) {
+            s.push_str(&line_comment(rng));
+        } else {
+            s.push_str(&block_comment(rng, nl, allow_multiline));
+        }
+        s.push_str(nl);
+    }
+    if rng.chance(1, 5) {
+        s.push_str(nl);
+    }
+    s
+}
+
 /// Lay a token stream out as source text with random trivia in every position.
 pub fn lay_out(rng: &mut Rng, toks: &[String], layout: &Layout) -> String {
     let mut s = String::new();
     // leading trivia of the file
+    let boundary = |i: usize| layout.boundaries.get(i).copied().unwrap_or(false);
+    let allow_ml = |i: usize| !boundary(i) || layout.ml_at_boundary;
     if rng.chance(1, 3) {
-        s.push_str(&gap(rng, layout, false, false));
+        s.push_str(&gap(rng, layout, false, false, allow_ml(0)));
     }
     for (i, t) in toks.iter().enumerate() {
         if i > 0 {
             let prev = &toks[i - 1];
             let glued = lexically_glued(prev, t);
-            let mut g = if rng.chance(1, 3) && !glued {
+            let mut g = if boundary(i) && (rng.below(1000) as u32) < layout.doc_blocks {
+                doc_block(rng, layout, prev.ends_with('-'), allow_ml(i))
+            } else if rng.chance(1, 3) && !glued {
                 String::new()
             } else {
-                gap(rng, layout, glued, prev.ends_with('-'))
+                gap(rng, layout, glued, prev.ends_with('-'), allow_ml(i))
             };
             // a block comment directly followed by a token, or two tokens in direct contact:
             // stay inside H3 unless this is a chosen F7-region case
@@ -1148,10 +1289,10 @@ pub fn lay_out(rng: &mut Rng, toks: &[String], layout: &Layout) -> String {
             s.push_str(&line_comment(rng));
         }
         3 => {
-            s.push_str(&gap(rng, layout, false, toks.last().map(|t| t.ends_with('-')).unwrap_or(false)));
-            s.push_str(&block_comment(rng, "\n"));
+            s.push_str(&gap(rng, layout, false, toks.last().map(|t| t.ends_with('-')).unwrap_or(false), allow_ml(toks.len())));
+            s.push_str(&block_comment(rng, "\n", allow_ml(toks.len())));
         }
-        _ => s.push_str(&gap(rng, layout, false, toks.last().map(|t| t.ends_with('-')).unwrap_or(false))),
+        _ => s.push_str(&gap(rng, layout, false, toks.last().map(|t| t.ends_with('-')).unwrap_or(false), allow_ml(toks.len()))),
     }
     s
 }
@@ -1162,12 +1303,16 @@ pub fn gen_source(rng: &mut Rng, typed: bool) -> (String, Vec<String>, u32) {
     let depth = 1 + rng.below(3) as u32;
     g.block(depth, false, true);
     let toks = std::mem::take(&mut g.toks);
-    let layout = Layout {
-        newline: *rng.pick(&["\n", "\n", "\r\n", "mixed"]),
-        comments: *rng.pick(&[0u32, 100, 250, 500]),
-        breaks: *rng.pick(&[100u32, 300, 600]),
-        f7: *rng.pick(&[0u32, 0, 0, 300]),
-    };
+    let mut layout = Layout::plain(
+        *rng.pick(&["\n", "\n", "\r\n", "mixed"]),
+        *rng.pick(&[0u32, 100, 250, 500]),
+        *rng.pick(&[100u32, 300, 600]),
+        *rng.pick(&[0u32, 0, 0, 300]),
+    );
+    if rng.chance(1, 4) {
+        layout.boundaries = statement_boundaries(&toks, &g.stmt_starts);
+        layout.doc_blocks = 250;
+    }
     (lay_out(rng, &toks, &layout), toks, g.last_semicolons)
 }
 
